@@ -99,8 +99,17 @@ def _parse_xml_string(xml_string, parser, charset=None):
     else:
         string = ''.join(chain( (chunk,), xml_string ))
 
+    raw = string
     if charset:
-        string = string.decode(charset)
+        try:
+            string = string.decode(charset)
+
+        except (LookupError, ValueError) as e:
+            # the charset of the Content-Type header is not a text encoding
+            # that python knows, or the request is not text in that encoding.
+            # UnicodeDecodeError is a ValueError.
+            logger_invalid.error("%r with charset %r", e, charset)
+            raise Fault('Client.XMLSyntaxError', str(e))
 
     try:
         try:
@@ -109,7 +118,12 @@ def _parse_xml_string(xml_string, parser, charset=None):
         except ValueError as e:
             logger.debug('ValueError: Deserializing from unicode strings with '
                          'encoding declaration is not supported by lxml.')
-            root, xmlids = etree.XMLID(string.encode(charset), parser)
+            if isinstance(raw, six.binary_type):
+                # the bytes as they came in: encoding the text again can fail
+                # (not every codec maps every string back) and adds nothing.
+                root, xmlids = etree.XMLID(raw, parser)
+            else:
+                root, xmlids = etree.XMLID(string.encode(charset), parser)
 
     except XMLSyntaxError as e:
         logger_invalid.error("%r in string %r", e, string)
